@@ -68,6 +68,17 @@ func checkC16(c *Ctx, r *Report) {
 
 	// =============================== DCMI sensor info
 	checkDCMISensorInfo(c, r)
+
+	// =============================== the paged responses are decoded, page after page, into one
+	// reused value: a field the decoder leaves alone on some success path keeps the previous
+	// page's content (rule shared with C17)
+	checkDecoderAssignment(c, r, "page-decoders-overwrite", 2, func(n *types.Named) bool {
+		switch n.Obj().Name() {
+		case "GetChannelCipherSuitesRsp", "GetDCMISensorInfoRsp":
+			return true
+		}
+		return false
+	})
 }
 
 // checkChunkLoop decides the cipher-suite retrieval loop (shared with C05: it
